@@ -105,8 +105,8 @@ pub struct SpaceAfter<T>(pub T);
 ///   the flow representation compact and unambiguous.
 /// - Complex values (sequences/maps/structs): the comment is ignored; only the
 ///   inner value is serialized to preserve indentation and layout.
-/// - Newlines in comments are sanitized to spaces so the comment remains on a
-///   single line (e.g., "a\nb" becomes "a b").
+/// - Line breaks (LF, CR, NEL, LS, PS) and other control characters in comments are
+///   sanitized to spaces so the comment remains on a single line (e.g., "a\nb" becomes "a b").
 /// - Deserialization of `Commented<T>` ignores comments: it behaves like `T` and
 ///   produces an empty comment string.
 ///
@@ -2065,7 +2065,22 @@ impl<'a, 'b, W: Write> SerializeTupleStruct for TupleSer<'a, 'b, W> {
                         if self.ser.in_flow == 0 {
                             // Stage the comment so scalar/alias serializers append it inline via write_end_of_scalar.
                             if !comment.is_empty() {
-                                let sanitized = comment.replace('\n', " ");
+                                // The comment must stay on the scalar's line: every line break the
+                                // scanner knows (LF, CR, NEL, LS, PS) and every other control
+                                // character (NUL ends the scanner's input) becomes a blank.
+                                let sanitized: String = comment
+                                    .chars()
+                                    .map(|c| {
+                                        if (c.is_control() && c != '\t')
+                                            || c == '\u{2028}'
+                                            || c == '\u{2029}'
+                                        {
+                                            ' '
+                                        } else {
+                                            c
+                                        }
+                                    })
+                                    .collect();
                                 self.ser.pending_inline_comment = Some(sanitized);
                             }
                             // Serialize the inner value as-is. Complex values will ignore the comment (it will be cleared).
